@@ -19,12 +19,17 @@ class Mod:
         with warnings.catch_warnings():
             warnings.simplefilter("ignore")
             self.tree = ast.parse(src, filename=path)
+        from . import pynorm, inventory
+        self.norm_log = pynorm.normalise(self.tree, name, inventory.load()[1])
         self.funcs = {}      # qual (without module) -> FunctionDef
         self.classes = {}    # name -> ClassDef
         self.bind = {}       # module-level name -> origin tuple
         self.star = []       # modules star-imported (resolved later)
+        self.annotate()
+
+    def annotate(self):
         for n in ast.walk(self.tree):
-            n._file = path
+            n._file = self.path
             for c in ast.iter_child_nodes(n):
                 c._parent = n
         self.tree._parent = None
@@ -46,6 +51,10 @@ class Py:
                 self.mods[name] = Mod(name, os.path.join(d, f))
         if len(self.mods) < 20:
             raise AnalysisError("package front end parsed %d modules (reference: 21)" % len(self.mods))
+        from . import pynorm
+        self.pruned = pynorm.prune_helpers([m.tree for m in self.mods.values()])
+        for m in self.mods.values():
+            m.annotate()
         for m in self.mods.values():
             self._index(m)
         for m in self.mods.values():
